@@ -37,6 +37,7 @@ type C13Case struct {
 	Mode       string      `json:"mode"` // "writer-stepped" | "reader-parked" | "writer-overtaken"
 	WriterPark *Inject     `json:"writer_park,omitempty"` // mode C: where the first writer is stopped before its lock
 	Symlink    bool        `json:"log_is_a_symlink,omitempty"`
+	StaleTmp   int         `json:"stale_tmp,omitempty"` // see SchedCase.StaleTmp
 	ReaderPark *Inject     `json:"reader_park,omitempty"`
 	Violations []Violation `json:"violations,omitempty"`
 	Observed   []readObs   `json:"observed,omitempty"`
@@ -373,6 +374,7 @@ func TestC13(t *testing.T) {
 			if cc.Symlink {
 				schedPre{SymlinkLog: true}.apply(w.Root)
 			}
+			schedPre{StaleTmp: cc.StaleTmp}.apply(w.Root)
 			var viol []Violation
 			if cc.Mode == "writer-overtaken" {
 				_, viol, _ = writerOvertaken(w, pre, cc.Writer, *cc.Writer2, *cc.WriterPark)
@@ -440,7 +442,18 @@ func TestC13(t *testing.T) {
 			schedPre{SymlinkLog: true}.apply(w.Root)
 			stats.Label("pre.log_is_a_symlink")
 		}
+		staleTmp := 0
+		if pct(rt, 10, "stale.tmp") {
+			// what a rewrite killed before its rename left behind: longer than anything the
+			// next rewrite will produce
+			staleTmp = 2 + uni(rt, 2, "stale.tmp.kind")
+			schedPre{StaleTmp: staleTmp}.apply(w.Root)
+			stats.Label("pre.stale_temp_file")
+		}
 		writer := genWriterOp(rt, w, pre)
+		if staleTmp > 0 && pct(rt, 70, "stale.rewrite") {
+			writer = oneOf(rt, []Op{{Kind: "compact"}, {Kind: "plan", Plan: genRichPlan(rt, w)}}, "stale.writer")
+		}
 		if symlink && pct(rt, 60, "symlink.rewrite") {
 			writer = oneOf(rt, []Op{{Kind: "compact"}, {Kind: "plan", Plan: genRichPlan(rt, w)}}, "symlink.writer")
 		}
@@ -476,7 +489,7 @@ func TestC13(t *testing.T) {
 				return
 			}
 			park := pts[uni(rt, lastAcq, "overtaken.at")]
-			cc := C13Case{Property: "C13", Engine: "SCHED", Test: "TestC13", Setup: setup, TornTail: torn, BigBody: big, Writer: a, Writer2: &b, Mode: mode, Legacy: legacy, WriterPark: &park, Symlink: symlink}
+			cc := C13Case{Property: "C13", Engine: "SCHED", Test: "TestC13", Setup: setup, TornTail: torn, BigBody: big, Writer: a, Writer2: &b, Mode: mode, Legacy: legacy, WriterPark: &park, Symlink: symlink, StaleTmp: staleTmp}
 			obs, viol, skipped := writerOvertaken(w, pre, a, b, park)
 			if skipped != "" {
 				stats.Label("skipped.overtaken: " + skipped)
@@ -497,7 +510,7 @@ func TestC13(t *testing.T) {
 		if torn > 0 && pct(rt, 50, "torn.readerparked") {
 			mode = "reader-parked" // a reader that has consumed the fragment while a writer repairs it
 		}
-		cc := C13Case{Property: "C13", Engine: "SCHED", Test: "TestC13", Setup: setup, TornTail: torn, BigBody: big, Writer: writer, Mode: mode, Legacy: legacy, Symlink: symlink}
+		cc := C13Case{Property: "C13", Engine: "SCHED", Test: "TestC13", Setup: setup, TornTail: torn, BigBody: big, Writer: writer, Mode: mode, Legacy: legacy, Symlink: symlink, StaleTmp: staleTmp}
 		if legacy {
 			stats.Label("pre.legacy_file_name")
 			if pct(rt, 50, "legacy.compact") {
